@@ -1145,6 +1145,9 @@ func (iqr *IQR) MergeIQRStatsResults(iqrs []*IQR) (bool, error) {
 
 	if statsType.IsSegmentStatsCmd() {
 		finalSegStatsMap := segStatsRes.GetSegStats()
+		// Keep the merged stats; this IQR may be merged with more IQRs later,
+		// and its own map lacks the columns it had no values for.
+		iqr.statsResults.segStatsMap = finalSegStatsMap
 		err = iqr.CreateSegmentStatsResults(searchResults, finalSegStatsMap, searchResults.GetAggs().MeasureOperations)
 	} else {
 		err = iqr.CreateGroupByStatsResults(searchResults)
